@@ -17,6 +17,8 @@ fn main() {
     let verdict = match args[1].as_str() {
         "cfg_offsets" => cfg_offsets(&input),
         "parse_program" => parse_program(&input),
+        "instruction_views" => instruction_views(&input),
+        "used_qubits" => used_qubits(&input),
         other => {
             eprintln!("unknown replay kind {other}");
             std::process::exit(64);
@@ -64,6 +66,54 @@ fn cfg_offsets(text: &str) -> Result<(), String> {
         body.into_iter().filter(|i| !matches!(i, Instruction::Include(_))).collect();
     if rendered != body_wo_include {
         return Err("blocks written out in order do not reproduce the body".to_string());
+    }
+    Ok(())
+}
+
+/// C09: the copying and the consuming listing agree; rebuilding from the listing gives an equal program
+fn instruction_views(text: &str) -> Result<(), String> {
+    let program = Program::from_str(text).map_err(|e| format!("input does not parse: {e}"))?;
+    let copied = program.to_instructions();
+    let consumed = program.clone().into_instructions();
+    if copied != consumed {
+        let show = |v: &Vec<Instruction>| {
+            v.iter().map(|i| quil_rs::quil::Quil::to_quil_or_debug(i)).collect::<Vec<_>>().join(" | ")
+        };
+        return Err(format!(
+            "to_instructions and into_instructions differ:\n  to:   {}\n  into: {}",
+            show(&copied),
+            show(&consumed)
+        ));
+    }
+    let rebuilt = Program::from_instructions(copied);
+    if rebuilt != program {
+        return Err("Program::from_instructions(p.to_instructions()) != p".to_string());
+    }
+    Ok(())
+}
+
+/// C10: the used-qubit set equals the qubits mentioned by the instruction listing, after each operation
+fn used_qubits(text: &str) -> Result<(), String> {
+    use std::collections::HashSet;
+    let program = Program::from_str(text).map_err(|e| format!("input does not parse: {e}"))?;
+    let check = |what: &str, p: &Program| -> Result<(), String> {
+        let mentioned: HashSet<quil_rs::instruction::Qubit> =
+            p.to_instructions().iter().flat_map(|i| i.get_qubits().into_iter().cloned()).collect();
+        println!("{what}: used {:?} mentioned {:?}", p.get_used_qubits(), mentioned);
+        if &mentioned != p.get_used_qubits() {
+            return Err(format!("{what}: used-qubit set {:?} but the instructions mention {:?}", p.get_used_qubits(), mentioned));
+        }
+        let rebuilt = Program::from_instructions(p.to_instructions());
+        if &rebuilt != p {
+            return Err(format!("{what}: not equal to the program rebuilt from its own instruction listing"));
+        }
+        Ok(())
+    };
+    check("parsed", &program)?;
+    check("clone_without_body_instructions", &program.clone_without_body_instructions())?;
+    check("program + program", &(program.clone() + program.clone()))?;
+    if let Ok(expanded) = program.expand_calibrations() {
+        check("expand_calibrations", &expanded)?;
     }
     Ok(())
 }
